@@ -442,6 +442,24 @@ fn main() {
             check_text(t, &text);
         });
     }
+    // items that collide under hand-written 32-bit hashes, side by side in one list (a memo of parsed
+    // items keyed by such a hash returns the wrong item)
+    {
+        let mut t = Tally::new();
+        let pairs = mc_core::chars::HASH_COLLISIONS;
+        let deps: Vec<String> = pairs.iter().flat_map(|(a, b, _)| [format!("{}-[0-9]*:../../cat/pkg", a), format!("{}-[0-9]*:../../cat/pkg", b)]).collect();
+        let scans: Vec<String> = pairs.iter().flat_map(|(a, b, _)| [format!("{}.mk", a), format!("{}.mk", b)]).collect();
+        let text = format!("PKGNAME=a-1\nALL_DEPENDS={}\nSCAN_DEPENDS={}\nPKGNAME=b-2\nALL_DEPENDS={}\n", deps.join(" "), scans.join(" "), deps.iter().rev().cloned().collect::<Vec<_>>().join(" "));
+        t.states += 1;
+        t.transitions += 3;
+        check_text(&mut t, &text);
+        for (a, b, _) in pairs {
+            t.states += 1;
+            check_text(&mut t, &format!("PKGNAME={}-1\nMAINTAINER={}\nPKGNAME={}-1\nMAINTAINER={}\n", a, a, b, b));
+        }
+        run.bound("colliding items: 36 pairs of words colliding under common 32-bit hashes as neighbouring ALL_DEPENDS / SCAN_DEPENDS items and as the names of neighbouring records");
+        run.merge(t);
+    }
     // separator sweep: each ASCII white-space character that can occur inside a line (SP TAB VT
     // FF CR), singly and in pairs, between list items, around scalar values and around keys
     {
